@@ -1,5 +1,5 @@
 (* Model/C17Run.v - case type and checker evaluated on harness-generated cases (C17) *)
-From ReqV Require Export Lib.Bytes Lib.PackedBytes Model.Form Model.Multipart Model.ReqBody Model.Progress Model.Session.
+From ReqV Require Export Lib.Bytes Lib.PackedBytes Model.Form Model.Multipart Model.ReqBody Model.Progress Model.Session Model.BodySetters.
 
 Record body_obs := {
   o_arrived : bool;                     (* the origin's handler ran *)
@@ -23,6 +23,7 @@ Inductive c17_case :=
 | CallCase (interval : Z) (bodies : list body_run) (obs : list Z)   (* redirect hops + saved body *)
 | SessionCase (owners : list nat) (ops : list sop) (obs : list sout)
     (* requests of a client and of its clones, in sequence; owners: the client each request was made from *)
+| SetterCase (setters : list bset) (sends : nat) (obs : list bout)   (* body setters in sequence, then executions *)
 | WriterAnyClock (total : Z) (ns : list Z) (obs : list Z)
 | ReaderAnyClock (ns : list Z) (obs : list Z).
 
@@ -61,6 +62,14 @@ Definition sout_eqb (a b : sout) : bool :=
   | OutMarshal i x, OutMarshal j y => Nat.eqb i j && N.eqb x y
   | OutNone i, OutNone j => Nat.eqb i j
   | OutErr i, OutErr j => Nat.eqb i j
+  | _, _ => false
+  end.
+
+Definition bout_eqb (a b : bout) : bool :=
+  match a, b with
+  | BoValue v x, BoValue w y => N.eqb v w && Bool.eqb x y
+  | BoBytes p, BoBytes q => bytes_eqb p q
+  | BoNone, BoNone => true
   | _, _ => false
   end.
 
@@ -125,6 +134,7 @@ Definition c17_check (c : c17_case) : bool :=
       zlist_eqb (run_reader interval (r0 t0) evs) obs
   | CallCase interval bodies obs => zlist_eqb (call_reports interval bodies) obs
   | SessionCase owners ops obs => list_eqb sout_eqb (srun (sinit owners) ops) obs
+  | SetterCase l n obs => list_eqb bout_eqb (run_setters l n) obs
   | WriterAnyClock total ns obs =>
       subseq obs (running 0 ns) &&
       (if existsb (Z.eqb total) (running 0 ns) then existsb (Z.eqb total) obs else true)
